@@ -3,7 +3,7 @@
    operation the observed outcome and the reified state after it.  The model is run step by step from the
    OBSERVED pre-state of each step (so one disagreement does not cascade). *)
 From Coq Require Import ZArith NArith String List Bool. Import ListNotations.
-From TP Require Export Check.Fieldchk Struct.Shapes Struct.Instance Struct.Mutate Gen.Tables.
+From TP Require Export Check.Fieldchk Struct.Shapes Struct.Instance Struct.Mutate Gen.Tables Struct.WrapBody Gen.WrapBodies.
 
 (* an operation as the harness performed it *)
 Inductive hop :=
@@ -19,8 +19,21 @@ Record ostep := { o_op : hop; o_out : outcome; o_post : option attrs (* None: re
 
 Record hcase := { h_tbl : table; h_class : classdef; h_init : attrs; h_steps : list ostep }.
 
-Definition table_of (k : N) : mutator_table :=
+(* the generated table of a wrapper kind (Gen/Tables.v: which mutators exist, which are overridden), every
+   overridden entry re-classified IN COQ from the statement-by-statement translation of its body
+   (Gen/WrapBodies.v, Struct/WrapBody.v [classify]); the stricter verdict wins *)
+Definition raw_table_of (k : N) : mutator_table :=
   match k with 0%N => list_mutators | 1%N => deque_mutators | _ => dict_mutators end.
+
+Definition bodies_of (k : N) : body_table :=
+  match k with 0%N => list_bodies | 1%N => deque_bodies | _ => dict_bodies end.
+
+Definition strict_list : mutator_table := Eval vm_compute in refine 0%N list_mutators list_bodies.
+Definition strict_deque : mutator_table := Eval vm_compute in refine 1%N deque_mutators deque_bodies.
+Definition strict_dict : mutator_table := Eval vm_compute in refine 2%N dict_mutators dict_bodies.
+
+Definition table_of (k : N) : mutator_table :=
+  match k with 0%N => strict_list | 1%N => strict_deque | _ => strict_dict end.
 
 Definition lookup_shape (t : mutator_table) (m : pystr) : shape :=
   match alist_get t m with Some s => s | None => Unrecognised end.
@@ -183,10 +196,20 @@ Section WithEnv.
     struct_ok (tbl_match (h_tbl h)) e (h_class h) (h_init h) &&
     hist_safe (tbl_match (h_tbl h)) e (h_class h) (h_init h) (mops_of h).
 
+  (* the part of the spec the theorem speaks about: the state after the step (not the exception class) *)
+  Definition step_state_bad (tbl : table) (c : classdef) (pre : attrs) (s : ostep) : bool :=
+    match o_out s with
+    | Done => negb (state_ok_dom tbl c (post_of pre s))
+    | Raised _ => negb (attrs_same c pre (post_of pre s))
+    end.
+
+  Definition hist_state_bad (h : hcase) : nat :=
+    first_bad (step_state_bad (h_tbl h) (h_class h)) (h_init h) (h_steps h) 0.
+
   (* when they hold, the theorem predicts: every step good.  Evaluated on the OBSERVED trace this is a
      check of the theorem's conclusion against the implementation. *)
   Definition theorem_contradicted (h : hcase) : bool :=
-    hyps_hold h && negb (Nat.eqb (hist_spec_bad h) 0) && Nat.eqb (hist_mismatch h) 0.
+    hyps_hold h && negb (Nat.eqb (hist_state_bad h) 0) && Nat.eqb (hist_mismatch h) 0.
 End WithEnv.
 
 (* indices (within each table) of the entries that are not safe NOW *)
